@@ -119,6 +119,62 @@ struct Tracked2 {
     }
 };
 
+// string literals of length 0..9: a char const* value is identified by the length of its string
+inline constexpr char const* g_lits[10] = {"", "x", "xx", "xxx", "xxxx", "xxxxx", "xxxxxx", "xxxxxxx", "xxxxxxxx", "xxxxxxxxx"};
+inline auto lit(long e) -> char const* { return g_lits[e < 0 ? 0 : (e > 9 ? 9 : e)]; }
+inline auto lit_len(char const* p) -> int
+{
+    int n = 0;
+    while (p[n] != '\0') { ++n; }
+    return n;
+}
+
+// a string_view-like class: implicitly constructible from a pointer (next to bool in a variant:
+// pointer -> bool is a narrowing conversion since P1957, so the class must be selected)
+struct Str {
+    int v;
+    Str() noexcept : v(0) { g_life.born(this); }
+    Str(char const* p) noexcept : v(lit_len(p)) { g_life.born(this); } // implicit on purpose
+    Str(Str const& o) noexcept : v(o.v) { g_life.born(this); }
+    Str(Str&& o) noexcept : v(o.v)
+    {
+        o.v = MOVED;
+        g_life.born(this);
+    }
+    auto operator=(Str const& o) noexcept -> Str&
+    {
+        v = o.v;
+        return *this;
+    }
+    auto operator=(Str&& o) noexcept -> Str&
+    {
+        if (this != &o) {
+            v   = o.v;
+            o.v = MOVED;
+        }
+        return *this;
+    }
+    ~Str()
+    {
+        g_life.died(this);
+        v = POISON;
+    }
+};
+
+// a base class at a non-zero offset inside the derived class: optional<Base&> from optional<Derived&> /
+// optional<Base const&> from optional<Derived> must adjust the pointer (and must not adjust a null one)
+struct Pad {
+    long pad[2] = {11, 22};
+};
+struct Base {
+    int v = 0;
+};
+struct Derived : Pad, Base {
+    int extra = 5;
+    Derived() = default;
+    explicit Derived(int x) { v = x; }
+};
+
 #define C07_REL(A, B)                                                                                                  \
     inline bool operator==(A const& l, B const& r) { return l.v == r.v; }                                              \
     inline bool operator!=(A const& l, B const& r) { return l.v != r.v; }                                              \
@@ -130,6 +186,7 @@ C07_REL(Tracked, Tracked)
 C07_REL(Tracked2, Tracked2)
 C07_REL(Tracked, Tracked2)
 C07_REL(Tracked2, Tracked)
+C07_REL(Str, Str)
 #undef C07_REL
 
 // ---- type universe (ids shared with Coq: Model.ty) -------------------------------------
@@ -153,6 +210,10 @@ template <>
 inline constexpr int tid<Tracked> = 7;
 template <>
 inline constexpr int tid<Tracked2> = 8;
+template <>
+inline constexpr int tid<char const*> = 10;
+template <>
+inline constexpr int tid<Str> = 11;
 
 template <int Id>
 struct type_of_id;
@@ -192,6 +253,16 @@ template <>
 struct type_of_id<8> {
     using type = Tracked2;
 };
+template <>
+struct type_of_id<10> {
+    using type = char const*;
+};
+template <>
+struct type_of_id<11> {
+    using type = Str;
+};
+// the source types of the converting constructor / assignment (9 = nullopt_t is not one)
+using source_ids = std::integer_sequence<int, 0, 1, 2, 3, 4, 5, 6, 7, 8, 10, 11>;
 
 template <typename T>
 inline long enc(T const& x)
@@ -199,8 +270,12 @@ inline long enc(T const& x)
     using U = std::remove_cv_t<T>;
     if constexpr (std::is_same_v<U, float> || std::is_same_v<U, double>) {
         return static_cast<long>(x * 2);
-    } else if constexpr (std::is_same_v<U, Tracked> || std::is_same_v<U, Tracked2>) {
+    } else if constexpr (std::is_same_v<U, Tracked> || std::is_same_v<U, Tracked2> || std::is_same_v<U, Str>) {
         return x.v;
+    } else if constexpr (std::is_same_v<U, Base> || std::is_same_v<U, Derived>) {
+        return x.v;
+    } else if constexpr (std::is_same_v<U, char const*>) {
+        return lit_len(x);
     } else {
         return static_cast<long>(x);
     }
@@ -214,6 +289,16 @@ inline auto dec(long e) -> T
         return static_cast<T>(static_cast<double>(e) / 2);
     } else if constexpr (std::is_same_v<T, Tracked> || std::is_same_v<T, Tracked2>) {
         return T(static_cast<int>(e));
+    } else if constexpr (std::is_same_v<T, Derived>) {
+        return Derived(static_cast<int>(e));
+    } else if constexpr (std::is_same_v<T, Base>) {
+        Base b;
+        b.v = static_cast<int>(e);
+        return b;
+    } else if constexpr (std::is_same_v<T, Str>) {
+        return Str(lit(e));
+    } else if constexpr (std::is_same_v<T, char const*>) {
+        return lit(e);
     } else if constexpr (std::is_same_v<T, bool>) {
         return e != 0;
     } else {
@@ -227,13 +312,15 @@ inline auto raw(long e)
 {
     if constexpr (std::is_same_v<T, Tracked> || std::is_same_v<T, Tracked2>) {
         return static_cast<int>(e);
+    } else if constexpr (std::is_same_v<T, Str>) {
+        return lit(e);
     } else {
         return dec<T>(e);
     }
 }
 
 template <typename T>
-inline constexpr bool is_class_alt = std::is_same_v<T, Tracked> || std::is_same_v<T, Tracked2>;
+inline constexpr bool is_class_alt = std::is_same_v<T, Tracked> || std::is_same_v<T, Tracked2> || std::is_same_v<T, Str>;
 
 } // namespace c07
 
